@@ -197,6 +197,77 @@ def check_liveness(chk, prog):
               "table_sizes no longer filters with is_live", ts.loc)
 
 
+# fields a manual Clone impl may build from something else than the same field of `self`, with the reason
+CLONE_FRESH_OK = {
+    ("egglog_core_relations::action::ExecutionState", "predicted"): "per-run prediction cache of an execution handle, not e-graph state",
+    ("egglog_core_relations::action::ExecutionState", "changed"): "per-handle change flag of an execution handle, not e-graph state",
+    ("egglog_core_relations::free_join::Counters", "0"): "atomics are not Clone: rebuilt element by element from self.0 (loads), asserted fresh by R-SHARED-MUT",
+    ("egglog_union_find::concurrent::buffer::Buffer", "data"): "atomics are not Clone: a new vector is filled element by element with loads of self.data under the read lock",
+    ("egglog_core_relations::table::SortedWritesTable", "rebuild_index"): "lazily refreshed cache (Index starts at version 0 and rebuilds itself on first use)",
+    ("egglog_core_relations::table::SortedWritesTable", "subset_tracker"): "cache: an empty tracker hands out the whole table on first use (conservative)",
+    ("egglog_core_relations::uf::DisplacedTable", "buffered_writes"): "pending writes belong to outstanding buffers of the original; a snapshot starts with none (R-SHARED-MUT asserts fresh)",
+}
+CLONE_LOOK_THROUGH = ("::deep_copy", "Pooled::cloned", "::dyn_clone", "::deep_clone_map", "Mutex::new", "RwLock::new", "ReadOptimizedLock::new", "Iterator::collect",
+                      "Iterator::map", "::iter", "Option::map", "Iterator::cloned", "MutexGuard as core::ops::deref::Deref>::deref", "Mutex::lock", "Result::unwrap")
+
+
+def _clone_sources(f, operand, depth=0):
+    out = set()
+    for a in f.origins(operand):
+        if a[0] == "call" and depth < 5:
+            c = f.call_at(a[2])
+            if c is not None and c.args and c.p.endswith(CLONE_LOOK_THROUGH):
+                out |= _clone_sources(f, c.args[0], depth + 1)
+                continue
+        out.add(a)
+    return out
+
+
+def check_clone_faithful(chk, prog):
+    R = chk.rule("R-CLONE-FAITHFUL", "every hand-written `impl Clone` of a workspace struct builds each field of the copy from the same field of `self` (through clone / deep_copy / "
+                 "dyn_clone / a fresh lock or Arc around the cloned value); a field built from anything else — an empty container, a default, a constant, another field, or one of these "
+                 "on some path only — must be in the frozen table of caches and per-handle state (one reason per entry). A snapshot whose table data, offsets or hash index is rebuilt "
+                 "from scratch or conditionally dropped is not a snapshot")
+    n = 0
+    used = set()
+    for im in prog.impls:
+        if not (im["trait"] and im["trait"].endswith("core::clone::Clone")) or im.get("derived"):
+            continue
+        for m in im["methods"]:
+            if not m.endswith("::clone"):
+                continue
+            f = prog.fns.get(m)
+            if f is None or f.crate.endswith("[bin]"):
+                continue
+            aggs = [(i, j, s) for i, j, s in f.assigns() if s[2][0] == "agg" and s[2][1] == "adt" and s[1] == [0, []]]
+            if len(aggs) != 1:
+                continue  # enums / delegating impls
+            i, j, s = aggs[0]
+            adt = prog.adts.get(s[2][2])
+            if not adt or len(adt["variants"]) != 1:
+                continue
+            fields = adt["variants"][0]["fields"]
+            for k, o in enumerate(s[2][4]):
+                fname = fields[k]["name"]
+                if "PhantomData" in fields[k]["ty"]:
+                    continue
+                n += 1
+                at = _clone_sources(f, o)
+                bad = [a for a in at if not (a[0] == "param" and a[1] == 1 and a[2][:1] == (fname,))]
+                key = (s[2][2], fname)
+                if bad and key in CLONE_FRESH_OK:
+                    used.add(key)
+                    chk.ok(R, f"{s[2][2]}.{fname}", f"listed: {CLONE_FRESH_OK[key]}", f.loc)
+                    continue
+                chk.judge(not bad, R, f"{s[2][2]}.{fname}", "copied from the same field of self",
+                          f"Clone for {s[2][2].rsplit('::', 1)[-1]} builds `{fname}` from {fmt_atoms(set(bad))} on some path instead of copying self.{fname}: the clone / pushed snapshot "
+                          "does not hold this part of the state", f.loc)
+    chk.floor(R, n, 40, "fields of hand-written Clone impls")
+    for key in CLONE_FRESH_OK:
+        if key not in used:
+            chk.ok(R, f"{key[0]}.{key[1]}:table-entry-unused", "listed field is now copied faithfully (entry no longer needed)")
+
+
 def run(chk, prog, tier):
     chk.explanation = EXPLANATION
     chk.assumptions = [
@@ -207,3 +278,4 @@ def run(chk, prog, tier):
     check_shared_mut(chk, prog)
     check_pop(chk, prog)
     check_liveness(chk, prog)
+    check_clone_faithful(chk, prog)
